@@ -94,7 +94,11 @@ func (c *Ctx) itemClass(it *Schema) string {
 		return "any"
 	case it.Type == "array":
 		return "array-string"
-	case it.Type == "object" || len(it.AllOf) > 0 || len(it.OneOf) > 0:
+	case len(it.AllOf) > 0:
+		return "inline-allOf"
+	case len(it.OneOf) > 0:
+		return "inline-oneOf"
+	case it.Type == "object":
 		return "object"
 	}
 	if it.Nullable {
